@@ -35,6 +35,7 @@ Proof.
   - destruct (tomb_active s); [|destruct Hin].
     unfold prev_entry in Hin. destruct (last_tx_with s (skey s e) d) as [pt|] eqn:El; [|destruct Hin].
     destruct (find_entry (e_key e) pt) as [pe|] eqn:Ef; [|destruct Hin].
+    destruct (kv_deleted (e_md pe)); [destruct Hin|].
     destruct (bytes_eqb _ _); [destruct Hin|]. destruct Hin as [Hin|[]]. injection Hin as _ <-.
     apply last_tx_with_in in El. apply Hd in El. apply find_some in Ef as [Ef _].
     destruct (tx_ok_entry _ _ El Ef) as [Hpo Hpt].
